@@ -14,7 +14,12 @@ from ..baseclass import ndpoly
 
 HEADER_REGEX = re.compile(
     HEADER_TEMPLATE.format(
-        version=r"\S+", names=r"(\S+)", keys=r"(\S+)", shape=r"(\S*)"
+        # (fields end at a plain space: storage keys may hold any other character,
+        # also ones that count as white space such as U+00A0 or U+2000)
+        version=r"[^ ]+",
+        names=r"([^ ]+)",
+        keys=r"([^ ]+)",
+        shape=r"([^ \r\n]*)",
     )
 )
 
